@@ -58,7 +58,7 @@ class Run:
         if rc != 0:
             self.broken.append(("translator", "gen_kernels", err.strip()))
         rc, out, err = sh([sys.executable, os.path.join(VERIF, "tools", "gen_consts.py"), self.repo,
-                           os.path.join(gen, "Consts.v"), os.path.join(gen, "WebpTables.v")])
+                           os.path.join(gen, "Consts.v"), os.path.join(gen, "WebpTables.v"), os.path.join(gen, "Mp4Dispatch.v")])
         if rc != 0:
             self.broken.append(("translator", "gen_consts", err.strip()))
         sh(["sh", os.path.join(COQ, "mk_project.sh")])
